@@ -198,3 +198,13 @@ def ctor_raw_new(tu, t):
     return s
 
 GUARD += [dict(lean='ctor_raw_new', header='contrib/PartialSVDSolver.h', custom=ctor_raw_new, path='*')]
+
+# ------------------------------------------------------------------ per-property target files
+# Every xlate/tgt_*.py may define MODULES = [(module_name, target_list, lean_prelude_text), ...]; they are appended here so
+# that adding translated kernels for a property never edits this shared file.  Inside such a file use
+#   from targets import T, first_n;  from xlate import Fn, XlateError, Out
+import glob as _glob, os as _os, importlib.util as _ilu
+for _p in sorted(_glob.glob(_os.path.join(_os.path.dirname(_os.path.abspath(__file__)), 'tgt_*.py'))):
+    _spec = _ilu.spec_from_file_location(_os.path.splitext(_os.path.basename(_p))[0], _p)
+    _m = _ilu.module_from_spec(_spec); _spec.loader.exec_module(_m)
+    MODULES += list(getattr(_m, 'MODULES', []))
